@@ -16,7 +16,7 @@ From RX.Proofs Require Import Tactics NoPanicUtf8 PositionProofs
   ErrShiftMidFrame ErrShiftMidCont ErrShiftMidPos ErrShiftMidCore ErrShiftMidLocal ErrShiftMidProlog
   ErrShiftMidFinal
   ErrShiftDtdLocal ErrShiftDtdCont ErrShiftDtdCore ErrShiftDtdProlog ErrShiftDtdFinal
-  ErrShiftEntBase ErrShiftEntStream ErrShiftEntTok ErrShiftEntBuild ErrShiftEntDoc.
+  ErrShiftEntBase ErrShiftEntStream ErrShiftEntTok ErrShiftEntBuild ErrShiftEntDoc ErrShiftEntSide ErrShiftEntSideSim.
 Open Scope N_scope.
 
 (* ---- the context at the point, with its inert nodes made neutral ---- *)
@@ -109,16 +109,23 @@ Hypothesis HP0 : 0 < P.
 Variable olds : list (node_kind * range).
 Hypothesis Holds : Forall (fun o => ntext (fst o)) olds.
 
-Lemma token_rel tok c : TokI SS true tok -> CI P c ->
-  psim SS (CI P) (x_ctx P k) (Parse.token T1 tok c) (Parse.token T2' (sh_tok (dd SS true) tok) (x_ctx P k c)).
+(* an additional invariant of the first run alone may ride along *)
+Variable J : context -> Prop.
+Hypothesis HJ : forall tok c c', TokI SS true tok -> CI P c -> J c -> Parse.token T1 tok c = Ok c' -> J c'.
+Notation CJ := (fun c => CI P c /\ J c).
+
+Lemma token_rel tok c : TokI SS true tok -> CJ c ->
+  psim SS CJ (x_ctx P k) (Parse.token T1 tok c) (Parse.token T2' (sh_tok (dd SS true) tok) (x_ctx P k c)).
 Proof.
-  intros Ht Hc. rewrite T2_eq. exact (token_x SS HP0 true tok c Ht Hc).
+  intros Ht [Hc Hj]. rewrite T2_eq. apply (psim_okP SS (CI P) J).
+  - exact (token_x SS HP0 true tok c Ht Hc).
+  - intros c' E. eapply HJ; eassumption.
 Qed.
 
-Lemma cont2_rel_ent fu fu' cN : Inv olds cN -> CI P cN -> (fu <= fu')%nat ->
+Lemma cont2_rel_ent fu fu' cN : Inv olds cN -> CI P cN -> J cN -> (fu <= fu')%nat ->
   match cont2 T1 context (Parse.token T1) (S fu) (sQ A0 W post) (pc olds cN) with
   | Ok cF => exists cU, cont2 T1 context (Parse.token T1) (S fu) (sQ A0 W post) cN = Ok cU /\
-               Inv olds cU /\ CI P cU /\ cF = pc olds cU /\
+               Inv olds cU /\ (CI P cU /\ J cU) /\ cF = pc olds cU /\
                cont2 T2' context (Parse.token T2') (S fu') (sQ A0 (W ++ ws) post) (pc olds (x_ctx P k cN))
                = Ok (pc olds (x_ctx P k cU))
   | Err e => exists e', ER SS e e' /\
@@ -127,9 +134,9 @@ Lemma cont2_rel_ent fu fu' cN : Inv olds cN -> CI P cN -> (fu <= fu')%nat ->
   | _ => True
   end.
 Proof.
-  intros HI HC Hle.
-  pose proof (cont2_ps A0 W ws post HW Hws Hv Hpost context (Parse.token T1) (Parse.token T2') (x_ctx P k) (CI P)
-                token_rel fu fu' cN Hle HC) as Sim.
+  intros HI HC HJ0 Hle.
+  pose proof (cont2_ps A0 W ws post HW Hws Hv Hpost context (Parse.token T1) (Parse.token T2') (x_ctx P k) CJ
+                token_rel fu fu' cN Hle (conj HC HJ0)) as Sim.
   pose proof (cont2_fr T1 olds Holds (S fu) (sQ A0 W post) cN HI) as F1.
   pose proof (cont2_fr T2' olds Holds (S fu') (sQ A0 (W ++ ws) post) (x_ctx P k cN) (Inv_x P k olds cN HI)) as F2.
   destruct (cont2 T1 context (Parse.token T1) (S fu) (sQ A0 W post) cN) as [cU|eU|p|] eqn:EX; cbn [fsim] in F1.
@@ -145,6 +152,7 @@ Variable fu fu' : nat.
 Variable cN : context.
 Hypothesis HI : Inv olds cN.
 Hypothesis HC : CI P cN.
+Hypothesis HJ0 : J cN.
 Hypothesis Hfu : (fu <= fu')%nat.
 Hypothesis E1 : parse T1 opt =
   (let! c := cont2 T1 context (Parse.token T1) (S fu) (sQ A0 W post) (pc olds cN) in ErrShiftMidCore.post c).
@@ -153,7 +161,7 @@ Hypothesis E2 : parse T2' opt =
 
 Theorem core_ent_err e : parse T1 opt = Err e -> exists e', parse T2' opt = Err e' /\ ER SS e e'.
 Proof.
-  intros H. pose proof (cont2_rel_ent fu fu' cN HI HC Hfu) as HR. rewrite E1 in H. rewrite E2.
+  intros H. pose proof (cont2_rel_ent fu fu' cN HI HC HJ0 Hfu) as HR. rewrite E1 in H. rewrite E2.
   destruct (cont2 T1 context (Parse.token T1) (S fu) (sQ A0 W post) (pc olds cN)) as [cF|e1|p|]; cbn [bind] in H; try discriminate.
   - destruct HR as (cU & _ & I1 & C1 & -> & ->). cbn [bind].
     rewrite (post_pc olds cU Holds I1) in H. rewrite (post_pc olds _ Holds (Inv_x P k olds cU I1)), post_x.
@@ -166,10 +174,10 @@ Qed.
 (* the document of the first run is the frame image of a document dU whose context satisfies the
    invariant; the second run yields the frame image of x_doc dU *)
 Theorem core_ent_ok d : parse T1 opt = Ok d ->
-  exists cU, cont2 T1 context (Parse.token T1) (S fu) (sQ A0 W post) cN = Ok cU /\ CI P cU /\
+  exists cU, cont2 T1 context (Parse.token T1) (S fu) (sQ A0 W post) cN = Ok cU /\ (CI P cU /\ J cU) /\
     d = pd olds (c_doc cU) /\ parse T2' opt = Ok (pd olds (x_doc P k (c_doc cU))).
 Proof.
-  intros H. pose proof (cont2_rel_ent fu fu' cN HI HC Hfu) as HR. rewrite E1 in H. rewrite E2.
+  intros H. pose proof (cont2_rel_ent fu fu' cN HI HC HJ0 Hfu) as HR. rewrite E1 in H. rewrite E2.
   destruct (cont2 T1 context (Parse.token T1) (S fu) (sQ A0 W post) (pc olds cN)) as [cF|e1|p|]; cbn [bind] in H; try discriminate.
   destruct HR as (cU & EU & I1 & C1 & -> & ->). cbn [bind].
   rewrite (post_pc olds cU Holds I1) in H. rewrite (post_pc olds _ Holds (Inv_x P k olds cU I1)), post_x.
